@@ -197,7 +197,7 @@ class Sess:
     def __init__(self, rep, tag, force_switches=None):
         self.rep = rep
         self.srv = Server(tag)
-        self.ctl = self.srv.client()
+        self.ctl = self.srv.client(timeout=30.0)
         self.model = lean_driver(FAMILY)
         if force_switches:
             if self.model.ask("switches " + force_switches) != "ok":
@@ -243,7 +243,7 @@ class Sess:
         self.crash_log = self.srv.log_tail(1500)
         self.srv.stop()
         self.srv = Server(self.srv.tag)
-        self.ctl = self.srv.client()
+        self.ctl = self.srv.client(timeout=30.0)
         self.ctl.cmd("SCRIPT", "LOAD", WRAPPER)
         self.restarts += 1
 
@@ -258,7 +258,7 @@ class Sess:
         r = self.ctl.cmd("FLUSHALL")
         if r != ("s", b"OK"):
             raise InternalError("FLUSHALL failed: %r" % (r,))
-        self.cl = {i: self.srv.client() for i in range(1, NCONN + 1)}
+        self.cl = {i: self.srv.client(timeout=30.0) for i in range(1, NCONN + 1)}
         self.ids = {}
         for i, c in self.cl.items():
             r = c.cmd("CLIENT", "ID")
@@ -381,7 +381,7 @@ class Sess:
         try:
             self.send(c, op)
             if not blocking:
-                impl = tree_of_reply(cli.read_reply(8.0))
+                impl = tree_of_reply(cli.read_reply(20.0))
         except (Closed, TimeoutError, ProtocolError, OSError) as e:
             time.sleep(0.05)
             died = "server-died" if not self.srv.alive() else "closed:" + type(e).__name__
@@ -410,8 +410,33 @@ class Sess:
                     if k not in keys:
                         keys.append(k)
                 # a time-out that is meant to fire may already have fired: no look at the registry then
-                ok = True if op.get("fires") else (self.wait_registered(c, self.sel[c], keys) if keys else False)
-                if ok:
+                if op.get("fires"):
+                    # a short time-out is in flight: it is part of THIS step — the null array is awaited here, before any other
+                    # look at the server (however loaded the machine is, no comparison can fall between the call and its nil), and
+                    # the model's time-out fires with it; the connection is never seen as blocked by the rest of the harness
+                    ans2 = self.model.ask("timeout %d" % c)
+                    try:
+                        got = tree_of_reply(cli.read_reply(20.0))
+                    except (Closed, TimeoutError, ProtocolError, OSError) as e:
+                        got = ("nothing-delivered:" + type(e).__name__,)
+                    left = self.wait_unregistered(self.ids[c], 5.0) if got == ("na",) else []
+                    if got == ("na",) and ans2 == "%d:( na )" % c and not left:
+                        impl = ("noreply",)
+                    else:
+                        impl = ("time-out:%s model:%s%s" % (show_tree(got), ans2, " still registered on %s" % [(d, hx(k)) for d, k in left] if left else ""),)
+                    step["extra_lines"] = ["timeout %d" % c]
+                    step["timed_out"] = True
+                    for k in keys:
+                        if (self.sel[c], k) not in self.ever:
+                            self.ever.append((self.sel[c], k))
+                    self.rep.count("block.timeout-fired")
+                    self.rep.count("block.%dkey%s.timed-out" % (len(keys), ".db-boundary" if self.sel[c] in (0, 1, 14, 15) else ""))
+                    ok = None
+                else:
+                    ok = self.wait_registered(c, self.sel[c], keys, limit=10.0) if keys else False
+                if ok is None:
+                    pass
+                elif ok:
                     impl = ("noreply",)
                     self.blocked[c] = (self.sel[c], keys)
                     for k in keys:
@@ -426,7 +451,7 @@ class Sess:
                         impl = ("noreply-unregistered",)
             else:
                 try:
-                    impl = tree_of_reply(cli.read_reply(3.0))
+                    impl = tree_of_reply(cli.read_reply(15.0))
                 except TimeoutError:
                     impl = ("noreply",)
                     self.blocked[c] = (self.sel[c], [b"?"])
@@ -449,7 +474,7 @@ class Sess:
                     self.rep.count("served.ghost")
                     continue
                 try:
-                    got = tree_of_reply(self.cl[bc].read_reply(3.0))
+                    got = tree_of_reply(self.cl[bc].read_reply(15.0))
                 except (Closed, TimeoutError, ProtocolError, OSError) as e:
                     got = ("nothing-delivered:" + type(e).__name__,)
                 delivered.append("%d:%s" % (bc, show_tree(got)))
@@ -535,11 +560,11 @@ class Sess:
         step["code"] = step["spec"] = ans
         step["line"] = "timeout %d" % c
         try:
-            got = tree_of_reply(self.cl[c].read_reply(6.0))
+            got = tree_of_reply(self.cl[c].read_reply(20.0))
         except (Closed, TimeoutError, ProtocolError, OSError) as e:
             got = ("nothing-delivered:" + type(e).__name__,)
         step["impl"] = "%d:%s" % (c, show_tree(got))
-        left = self.wait_unregistered(self.ids[c], 1.0) if got == ("na",) else []
+        left = self.wait_unregistered(self.ids[c], 5.0) if got == ("na",) else []
         step["agree"] = ans == step["impl"] and not left
         if left:
             step["impl"] += " still registered on %s" % [(d, hx(k)) for d, k in left]
@@ -564,7 +589,7 @@ class Sess:
         self.dead.add(c)
         cid = self.ids[c]
         if ans == "gone":
-            left = self.wait_unregistered(cid, 3.0) if was else []
+            left = self.wait_unregistered(cid, 15.0) if was else []
             step["impl"] = "gone" if not left else "still registered on %s" % [(d, hx(k)) for d, k in left]
         else:
             # the server does not notice: the registrations must still be there
@@ -576,7 +601,7 @@ class Sess:
         self.rep.count("block.hangup-while-blocked" if was else "hangup")
         # replacement
         n = max(self.cl) + 1
-        self.cl[n] = self.srv.client()
+        self.cl[n] = self.srv.client(timeout=30.0)
         r = self.cl[n].cmd("CLIENT", "ID")
         self.ids[n] = r[1]
         self.multi[n], self.multi_scripts[n], self.multi_ops[n], self.sel[n] = None, False, [], 0
@@ -590,7 +615,7 @@ class Sess:
         self.ops.append(op)
         try:
             cli.send_raw(b"".join(cli.encode([unhx(a) for a in args]) for args in op["reqs"]))
-            impls = [tree_of_reply(cli.read_reply(8.0)) for _ in op["reqs"]]
+            impls = [tree_of_reply(cli.read_reply(20.0)) for _ in op["reqs"]]
         except (Closed, TimeoutError, ProtocolError, OSError) as e:
             impls = [("closed:" + type(e).__name__,)] * len(op["reqs"])
         for args, impl in zip(op["reqs"], impls):
@@ -1034,6 +1059,8 @@ class Runner:
                     for st in s.steps:
                         if st.get("line"):
                             last = spec.ask(st["line"])
+                            for xl in st.get("extra_lines", []):
+                                spec.ask(xl)
                     ds = (spec.ask("dumpall %d" % s.now()) or "").split(" || ")
                     ss = (spec.ask("sels " + " ".join(str(c) for c in sorted(s.cl))) or "").split(" ")
                 finally:
@@ -1204,7 +1231,7 @@ class Runner:
                 if not self.do(a, r.choice([[name, keys[0]], [name] + keys + [b"-1"], [name] + keys + [b"abc"]])):
                     return False
                 continue
-            op = op_plain(a, [name] + keys + [r.choice([b"0.05", b"0.05", b"0.1"]) if mode == "timeout" else r.choice([b"0", b"30", b"60"])])
+            op = op_plain(a, [name] + keys + [r.choice([b"0.05", b"0.05", b"0.1"]) if mode == "timeout" else r.choice([b"0", b"300", b"600"])])
             if mode == "timeout":
                 op["fires"] = True
             st = s.request(a, op)
@@ -1216,7 +1243,7 @@ class Runner:
             db = s.sel[a]
             if resel:
                 self.rep.count("block.after-reselect")
-            if mode == "timeout":
+            if mode == "timeout" and a in s.blocked:
                 if not self.judge(s.fire_timeout(a)):
                     return False
                 continue
